@@ -654,7 +654,10 @@ Definition error_execute (c : cfg) (r : req) (disc : option nat) (s : st) (e : (
   let t := set_rh (t_rh t ++ [err_header]) t in
   let t := set_close_on_finish t in
   let t := set_clen (Some (Z.of_nat (length bodyb))) t in
-  task_write c r disc (t, ch) bodyb.
+  (* if getattr(self.request, "command", None) == "HEAD": body = b""   (fix 7243240; the head
+     still announces the length the body would have).  The ladder's own err_request
+     inherits the command of the failed request (fix 52947ac). *)
+  task_write c r disc (t, ch) (if r_head r then [] else bodyb).
 
 (* start(); execute(); finish()  -- the try body of Task.service *)
 Definition task_run (c : cfg) (r : req) (disc : option nat) (s : st) (job : app + ((str * str) * str)) : exec_result :=
@@ -720,7 +723,9 @@ Definition ladder (c : cfg) (r : req) (disc : option nat) (x : exec_result) (raw
       else                                       (* except BaseException *)
         if negb (t_wrote_header t) then
           let body := if c_expose_tracebacks c then c_tb c else internal_error_text in
-          let er := mkReq (r_version r) (r_connection r) false false (Some (err_InternalServerError, body)) in
+          (* err_request = parser_class(adj): version, command (fix 52947ac) and the CONNECTION
+             header are copied from the failed request; connection_close is the class default *)
+          let er := mkReq (r_version r) (r_connection r) (r_head r) false (Some (err_InternalServerError, body)) in
           let t1 := new_task (r_version r) true in
           let x1 := task_service c er disc (t1, ch) (inr (err_InternalServerError, body)) in
           match x_out x1 with
